@@ -330,7 +330,7 @@ def join_alternation(prog, chk, rid):
     if not sep:
         raise AnalysisBroken("String::join: separator parameter not found")
     sep = sep[0]["n"]
-    flags = sorted(d["n"] for n in f.nodes if n["k"] == "DeclStmt" for d in n["decls"] if d.get("t") == "bool")
+    flags = sorted(d["n"] for n in f.nodes if n["k"] == "DeclStmt" for d in n["decls"] if (d.get("t") or "").replace("const ", "").strip() == "bool")
     errors = []
 
     def transfer(st, e):
